@@ -708,39 +708,42 @@ theorem csiReadIndex_refines :
     exact Refines.fail _ _
 
 
-/-! ### `fixed = false` is the model of C12 (`Noodles.Io.Binary`) -/
+/-! ### `fixed = true` is the model of C12 (`Noodles.Io.Binary`)
 
-theorem namesF_false_eq : namesF false = names := by
+Since /repo `fix:` 125ecd7 and 8288cb5 the sync readers ARE the fixed ones, and `Noodles.Io.Binary`
+(`names`, `csiAux`) transcribes them; `fixed = false` is the code before the two commits. -/
+
+theorem namesF_true_eq : namesF true = names := by
   unfold namesF names
-  simp only [Bool.false_and, Bool.false_eq_true, if_false]
+  simp only [Bool.true_and, decide_eq_true_eq]
   rfl
 
-theorem tabixHeaderF_false_eq : tabixHeaderF false = tabixHeader := by
+theorem tabixHeaderF_true_eq : tabixHeaderF true = tabixHeader := by
   unfold tabixHeaderF tabixHeader
-  rw [namesF_false_eq]
+  rw [namesF_true_eq]
   rfl
 
-theorem tabixReadIndexF_false_eq : tabixReadIndexF false = tabixReadIndex := by
+theorem tabixReadIndexF_true_eq : tabixReadIndexF true = tabixReadIndex := by
   unfold tabixReadIndexF tabixReadIndex
-  rw [tabixHeaderF_false_eq]
+  rw [tabixHeaderF_true_eq]
 
-theorem csiAuxF_false_eq : csiAuxF false = csiAux := by
+theorem csiAuxF_true_eq : csiAuxF true = csiAux := by
   unfold csiAuxF csiAux
-  rw [tabixHeaderF_false_eq]
-  simp only [Bool.false_eq_true, if_false]
+  rw [tabixHeaderF_true_eq]
+  simp only [if_true]
 
-theorem csiReadIndexF_false_eq : csiReadIndexF false = csiReadIndex := by
+theorem csiReadIndexF_true_eq : csiReadIndexF true = csiReadIndex := by
   unfold csiReadIndexF csiReadIndex
-  rw [csiAuxF_false_eq]
+  rw [csiAuxF_true_eq]
 
-/-- `fixed = false` is the model of C12 (`Noodles.Io.Binary`) -/
-theorem tabixReadIndexF_false (d : Bytes) :
-    runPure (tabixReadIndexF false) d = runPure tabixReadIndex d := by
-  rw [tabixReadIndexF_false_eq]
+/-- `fixed = true` is the model of C12 (`Noodles.Io.Binary`) -/
+theorem tabixReadIndexF_true (d : Bytes) :
+    runPure (tabixReadIndexF true) d = runPure tabixReadIndex d := by
+  rw [tabixReadIndexF_true_eq]
 
-theorem csiReadIndexF_false (d : Bytes) :
-    runPure (csiReadIndexF false) d = runPure csiReadIndex d := by
-  rw [csiReadIndexF_false_eq]
+theorem csiReadIndexF_true (d : Bytes) :
+    runPure (csiReadIndexF true) d = runPure csiReadIndex d := by
+  rw [csiReadIndexF_true_eq]
 
 /-- lifting a refinement between `Prog`s (`Refines`: whatever the first accepts, the second
 accepts with the same value and the same bytes left) to the two runs -/
